@@ -270,7 +270,7 @@ Definition load_locals (g : glob) (t : thread) : thread :=
 (* effect of one atomic step executed by a thread with locals [t] *)
 Definition exec (g : glob) (t : thread) (m : mstep) : glob * thread :=
   match m with
-  | MSubReg j => (set_ph g j 1, t)
+  | MSubReg j => (if g_ph g j =? 0 then set_ph g j 1 else g, t)   (* a slot is used by one subscribe call *)
   | MWalk j => (walk_shard g j, t)
   | MUnsub j => (set_ph g j 2, t)
   | MInsPrep _ _ => (g, load_locals g t)
